@@ -48,6 +48,18 @@ def _negextreme(theta, n, seed, d):
     return -np.abs(rng.standard_normal((n, d))) * 1e200 * (1 + abs(th[0])) - 1e150
 
 
+def _mutating(theta, n, seed, d):
+    """A model that normalises its parameter vector *in place* before using it (sloppy but common user code). Its output is
+    still a pure function of the values it received."""
+    th = np.asarray(theta)
+    vals = np.array(th, dtype=float, copy=True)
+    try:
+        th[...] = vals / (1.0 + np.sum(np.abs(vals)))
+    except (ValueError, TypeError):   # read-only or non-array argument: nothing to scribble on
+        pass
+    return _gauss(vals, n, seed, d)
+
+
 def _tiny(theta, n, seed, d):
     """Deterministic output of magnitude ~1e-10 (below numpy.allclose's absolute tolerance)."""
     return _poly(theta, n, seed, d) * 1e-10 / (1.0 + float(np.max(np.abs(np.asarray(theta, dtype=float)))))
@@ -62,7 +74,7 @@ def _scripted(theta, n, seed, d):
 
 _mod = sys.modules[__name__]
 MODELS = {}
-for _kind, _fn in (("gauss", _gauss), ("ar1", _ar1), ("poly", _poly), ("extreme", _extreme), ("scripted", _scripted), ("tiny", _tiny), ("negextreme", _negextreme)):
+for _kind, _fn in (("gauss", _gauss), ("ar1", _ar1), ("poly", _poly), ("extreme", _extreme), ("scripted", _scripted), ("tiny", _tiny), ("negextreme", _negextreme), ("mutating", _mutating)):
     for _d in (1, 2, 3):
         def _make(fn=_fn, dd=_d):
             def model(theta, n, seed):
